@@ -268,10 +268,21 @@ class Wide:
         self.used = set()
         self.imports = set()
         self.features = features
+        # some programs are written with the names a minifier would choose (golfed / already minified code)
+        self.short = rng.random() < 0.3
+        self.short_pool = list('ABCDEFGHIJKLMNOPQRSTUVWXYZabcdefghijklmnopqrstuvwxyz') + ['_A', '_B', '_C', 'AA', 'AB']
+        if self.short:
+            head = self.short_pool[:8]
+            rng.shuffle(head)
+            self.short_pool[:8] = head
 
     def fresh(self, base):
         self.n += 1
         r = self.rng
+        if self.short and base != 'c':
+            if self.short_pool:
+                return self.short_pool.pop(0)
+            return 'Z%d' % self.n
         pool = {'v': ['value', 'result', 'total', 'count', 'index', 'item', 'data', 'acc', 'tmp', 'name', 'x', 'y', 'n', 'i', 'k', 'left', 'right'],
                 'f': ['compute', 'helper', 'process', 'make', 'build', 'apply', 'fn', 'g', 'h'],
                 'c': ['Thing', 'Node', 'Point', 'Box', 'Base', 'Item'],
@@ -640,8 +651,11 @@ class Wide:
             return e
         if c < 0.6:
             return e + '()'
-        if c < 0.85:
+        if c < 0.75:
             return '%s(%s)' % (e, self.e_str(env, 2))
+        if c < 0.9:
+            return r.choice(['ImportError(name=%s)' % self.e_str(env, 2), "ImportError(name='mod', path=%s)" % self.e_str(env, 2), "NameError(name='missing')",
+                             "AttributeError(name='attr', obj=None)", 'ValueError(*[%s])' % self.e_int(env, 2), 'KeyError(**{})', "ImportError(**{'name': 'kw'})"])
         return '%s() from None' % e
 
     def for_loop(self, env, ctx, depth):
@@ -680,7 +694,7 @@ class Wide:
         r = self.rng
         body = self.block(cp(env), ctx, depth + 1)
         if r.random() < 0.7:
-            body.append(r.choice(['raise %s' % self.raise_expr(env), 'print(1 // 0)', "print({}['missing'])", 'print([][1])', "int('x')", 'print(undefined_name_)']))
+            body.append(r.choice(['raise %s' % self.raise_expr(env), 'raise %s' % self.raise_expr(env), 'print(1 // 0)', "print({}['missing'])", 'print([][1])', "int('x')", 'print(undefined_name_)']))
         lines = ['try:'] + self.ind(body)
         nh = r.choice([1, 1, 2, 0])
         names = r.sample(EXCS[:8], nh)
@@ -690,7 +704,7 @@ class Wide:
             if r.random() < 0.5:
                 a = self.fresh('v')
                 alias = ' as ' + a
-                hb = ['print(type(%s).__name__, str(%s)[:20])' % (a, a)]
+                hb = ['print(type(%s).__name__, str(%s)[:20], %s.args, getattr(%s, "name", None), getattr(%s, "path", None))' % (a, a, a, a, a)]
             else:
                 hb = []
             kind = '(%s, %s)' % (e, r.choice(EXCS)) if r.random() < 0.2 else e
